@@ -83,7 +83,9 @@ class C17(Case):
         kind = sp["kind"]
         try:
             with symbolic_mode():
-                p = let(Par, domain=parents)
+                # dup_parent: the supplied domain names the first parent a second time (C04: such a domain behaves the same on
+                # every evaluation; whether the repeated object counts once or twice is not fixed by the statements)
+                p = let(Par, domain=(parents + [parents[0]]) if sp.get("dup_parent") else parents)
                 conc = concatenate(p.items)
                 if kind == "value":
                     q = an(entity(conc))
@@ -150,6 +152,14 @@ class C17(Case):
                     obs.append((tag + ":the_row_is_a_list", alg.const(len(view) == 1 and not (view[0] and view[0][0] == "notalist"))))
                     continue
                 L = view[0]
+                if self.spec.get("dup_parent"):
+                    # real lists only: both readings are concrete
+                    once = [next(j for j, e in enumerate(outer) if e is c) for par in data["parents"] for c in par.items]
+                    twice = once + [next(j for j, e in enumerate(outer) if e is c) for c in data["parents"][0].items]
+                    obs.append((tag + ":value_is_the_concatenation_with_the_repeated_parent_counted_once_or_twice",
+                                alg.const(L == once or L == twice)))
+                    obs.append((tag + ":same_value_on_every_evaluation", alg.const(L == outcome["first"][0])))
+                    continue
                 if alg.symbolic:
                     pos = z3.IntVal(0)
                     terms = []
@@ -200,6 +210,8 @@ def shapes(tier, seed):
     nc = 3 if tier == "quick" else 4
     for kind in ("not_not_in", "not_not_contains", "not_not_not_in"):
         out.append(dict(kind=kind, parents=2, cands=nc))
+    out.append(dict(kind="value", parents=2, cands=nc, twice=True, lists="real", dup_parent=True))
+    out.append(dict(kind="value", parents=1, cands=2, twice=True, lists="real", dup_parent=True))
     for kind in HOLDER:
         out.append(dict(kind=kind, parents=2, cands=2))
     for kind in COMBINED:
